@@ -231,9 +231,9 @@ def load_events(path):
 
 def classify(v):
     r = v.get("r", "")
-    if r.startswith("skip"):
+    if r.startswith("skip:"):
         return "skip"
-    if r.startswith("inc"):
+    if r.startswith("inc:"):
         return "inconclusive"
     return "mismatch"
 
